@@ -78,7 +78,7 @@ def native_sandbox_probe_one(prelude, body):
         before = sorted(os.listdir(d))
         try:
             r = subprocess.run([native.garden_bin(), "playground-run", os.path.join(d, "main.gdn")], input="VERIF_STDIN_LINE\n",
-                               capture_output=True, text=True, timeout=20, cwd=d)
+                               capture_output=True, text=True, timeout=60, cwd=d)
             out = r.stdout + r.stderr
         except subprocess.TimeoutExpired:
             return {"reproduced": True, "artefact": src, "detail": "sandboxed run blocked (timeout)"}
